@@ -688,8 +688,14 @@ func directInterleaveRun(stream uint64, cache, rounds int, blocking bool) (probl
 			time.Sleep(200 * time.Microsecond)
 		}
 		// bring the chain to a clean point: everything up to the newest given block
-		for c.h.Load() < newer {
-			_ = q.Put(&fblk{idx: c.h.Load() + 1})
+		for {
+			// one reading of the height per turn: a second one may already be past
+			// the newest block and would hand over a block the round never meant to give
+			cur := c.h.Load()
+			if cur >= newer {
+				break
+			}
+			_ = q.Put(&fblk{idx: cur + 1})
 			if time.Now().After(deadline) {
 				return fmt.Sprintf("re-offered next blocks do not get through, height %d", c.h.Load()), true, parked
 			}
